@@ -34,7 +34,7 @@ ASSUMPTIONS = [
     "jump destinations at or after the first symbolic opcode are not decidable; the oracle requires none of them to be reported",
     "decode_instruction on a symbolic opcode may raise NotConcreteError (documented: symbolic opcodes unsupported)",
 ]
-WATCHDOG_S = {"quick": 1500, "thorough": 7200}
+WATCHDOG_S = {"quick": 2400, "thorough": 10800}
 
 ALPHA = [0x00, 0x01, 0x56, 0x57, 0x5B, 0x5F, 0x60, 0x61, 0x7F]
 
